@@ -257,3 +257,134 @@ func VerifC11Burst(tries, n, last, same int) {
 	verifAssert(verifGoroutines() == 0, "no-goroutine-left-after-close")
 	verifReach("end")
 }
+
+// VerifC11ReadFault: the socket starts failing reads at a symbolic instant while a call is
+// pending (matcher != 0: with a matcher; 0: without, any message with the id is acceptable). The
+// call still ends within its schedule with an error (never with a nil response and a nil error),
+// the id is released and Close returns leaving no goroutine.
+func VerifC11ReadFault(tries, matcher int) {
+	k := &verifCall{conn: newVerifConn(), tries: tries, ctxAt: -1, closeAt: -1}
+	k.T = int64(verifU32("T"))
+	verifAssume(k.T >= 1)
+	c, err := NewWithConn(k.conn, verifHW, WithTimeout(time.Duration(k.T)), WithRetry(tries))
+	verifAssert(err == nil, "client-created")
+	k.c = c
+	k.req = &dhcpv4.DHCPv4{OpCode: dhcpv4.OpcodeBootRequest, HWType: 1, TransactionID: verifXID, ClientHWAddr: verifHW, Options: dhcpv4.Options{53: []byte{1}}}
+	k.dest = verifDest()
+	w := k.T
+	for i := 0; i < tries; i++ {
+		k.budget += w
+		w += w
+	}
+	at := int64(verifU64("fault.at"))
+	verifAssume(at >= 0)
+	verifAssume(at < k.budget)
+	k.conn.failReadAt(at)
+	var m Matcher
+	if matcher != 0 {
+		m = IsMessageType(dhcpv4.MessageTypeOffer)
+	}
+	k.start = verifNow()
+	k.resp, k.err = c.SendAndRead(newVerifCtx(), k.dest, k.req, m)
+	k.end = verifNow()
+	verifAssert(k.resp == nil, "no-response")
+	verifAssert(k.err != nil, "error-when-no-response")
+	verifAssert(k.end-k.start <= k.budget, "returns-within-T-times-2^tries-1")
+	c.pendingMu.Lock()
+	_, still := c.pending[verifXID]
+	c.pendingMu.Unlock()
+	verifAssert(!still, "transaction-id-released")
+	c.Close()
+	verifSettle()
+	verifAssert(verifGoroutines() == 0, "no-goroutine-left-after-close")
+	verifReach("end")
+}
+
+// VerifC11CloseAtOnce: Close immediately after the client was created (the receive loop may not
+// have run a single statement yet), and Close right after a call returned: when Close returns the
+// receive loop has stopped — no goroutine is left at that very instant, not merely later.
+func VerifC11CloseAtOnce(callFirst int) {
+	conn := newVerifConn()
+	c, err := NewWithConn(conn, verifHW, WithTimeout(time.Duration(int64(verifU32("T"))+1)), WithRetry(1))
+	verifAssert(err == nil, "client-created")
+	if callFirst != 0 {
+		req := &dhcpv4.DHCPv4{OpCode: dhcpv4.OpcodeBootRequest, HWType: 1, TransactionID: verifXID, ClientHWAddr: verifHW, Options: dhcpv4.Options{53: []byte{1}}}
+		_, _ = c.SendAndRead(newVerifCtx(), verifDest(), req, nil)
+	}
+	cerr := c.Close()
+	verifAssert(cerr == nil, "close-returns")
+	verifAssert(verifGoroutines() == 0, "receive-loop-stopped-when-close-returns")
+	verifSettle()
+	verifAssert(verifGoroutines() == 0, "no-goroutine-left-after-close")
+	verifReach("end")
+}
+
+// VerifC10SlowMatcher: a caller that is busy inside its matcher while a burst arrives. n datagrams
+// routed to the call arrive in one instant during the second try; all are rejected by the matcher
+// except the last, which is acceptable; the matcher's first invocation takes S (symbolic) of
+// virtual time, so the receive loop finds the transaction's buffer full and has to wait for the
+// caller. The call returns the acceptable datagram — the first one in arrival order — as soon as
+// the matcher has got to it.
+func VerifC10SlowMatcher(n int) {
+	k := &verifCall{conn: newVerifConn(), tries: 2, ctxAt: -1, closeAt: -1}
+	k.T = int64(verifU32("T"))
+	verifAssume(k.T >= 1)
+	c, err := NewWithConn(k.conn, verifHW, WithTimeout(time.Duration(k.T)), WithRetry(2))
+	verifAssert(err == nil, "client-created")
+	k.c = c
+	k.req = &dhcpv4.DHCPv4{OpCode: dhcpv4.OpcodeBootRequest, HWType: 1, TransactionID: verifXID, ClientHWAddr: verifHW, Options: dhcpv4.Options{53: []byte{1}}}
+	k.dest = verifDest()
+	a := int64(verifU64("burst.at"))
+	s := int64(verifU64("matcher.takes"))
+	verifAssume(a > k.T) // during the second try
+	verifAssume(a <= 1<<36)
+	verifAssume(s > 0)
+	verifAssume(s < 3*k.T)
+	verifAssume(a+s < 3*k.T) // the matcher is done before the call's schedule ends
+	var burst [][]byte
+	for i := 0; i < n; i++ {
+		mt := byte(5) // DHCPACK: rejected by the OFFER matcher
+		if i == n-1 {
+			mt = 2
+		}
+		p := &dhcpv4.DHCPv4{OpCode: dhcpv4.OpcodeBootReply, HWType: 1, TransactionID: verifXID, ClientHWAddr: verifHW, Options: dhcpv4.Options{53: []byte{mt}, 12: []byte{byte(i)}}}
+		burst = append(burst, p.ToBytes())
+	}
+	from := &net.UDPAddr{IP: net.IP{192, 0, 2, 1}, Port: 67}
+	verifAt(a, func() {
+		for _, d := range burst {
+			select {
+			case k.conn.in <- verifDgram{data: d, from: from}:
+			default:
+			}
+		}
+	})
+	calls := 0
+	var seen []byte
+	matcher := func(p *dhcpv4.DHCPv4) bool {
+		calls++
+		if calls == 1 {
+			<-time.After(time.Duration(s))
+		}
+		seen = append(seen, p.Options[12]...)
+		return p.MessageType() == dhcpv4.MessageTypeOffer
+	}
+	k.start = verifNow()
+	k.resp, k.err = c.SendAndRead(newVerifCtx(), k.dest, k.req, matcher)
+	k.end = verifNow()
+	verifAssert(k.err == nil && k.resp != nil, "first-acceptable-datagram-in-arrival-order-ends-the-call")
+	if k.resp != nil {
+		verifAssert(k.resp.MessageType() == dhcpv4.MessageTypeOffer, "response-satisfies-matcher")
+		verifAssert(len(k.resp.Options[12]) == 1 && k.resp.Options[12][0] == byte(n-1), "response-is-a-datagram-that-arrived-during-the-call")
+		verifAssert(k.end == a+s, "returns-as-soon-as-acceptable-response-arrives")
+	}
+	// the matcher saw every datagram of the burst, in arrival order, none dropped
+	verifAssert(len(seen) == n, "no-routed-datagram-dropped")
+	for i := range seen {
+		verifAssert(seen[i] == byte(i), "datagrams-judged-in-arrival-order")
+	}
+	c.Close()
+	verifSettle()
+	verifAssert(verifGoroutines() == 0, "no-goroutine-left-after-close")
+	verifReach("end")
+}
